@@ -219,6 +219,18 @@ def valid_feature(T, s, norm, mv, value=True):
             return 'INF-NaN'
     if p == 'str' and any(is_nonxml_space(ch) for ch in s):
         return 'non-xml-space'
+    if T == 'anyURI':
+        # the library validates more than the anyURI lexical space asks for (every string): name what it checks
+        import re as _re
+        from urllib.parse import urlsplit as _us
+        try:
+            _us(norm).port
+        except ValueError:
+            return 'stricter-than-lexical-space/authority-or-port-not-parsable'
+        if norm.count('#') > 1:
+            return 'stricter-than-lexical-space/more-than-one-#'
+        if _re.search(r'%(?![0-9A-Fa-f]{2})', norm):
+            return 'stricter-than-lexical-space/percent-not-followed-by-two-hex-digits'
     if s != norm:
         return 'xml-space'
     return 'plain'
